@@ -265,6 +265,27 @@ func genStrCases(cx *CheckCtx) []*Case {
 	for i := 0; i < cx.N(4000, 400000); i++ {
 		add(mkLit(genBytes(r, 24)))
 	}
+	// text-like strings: words joined by the separators real text contains (LF, CRLF, tab, lone CR)
+	words := []string{"Usage:", "tool", "[flags]", "a", "b", "hello", "世界", "x=1", "--help", "end."}
+	seps := []string{" ", "\n", "\r\n", "\t", "\r", "  ", "\n\n", "\r\n\r\n"}
+	for i := 0; i < cx.N(1500, 100000); i++ {
+		var b strings.Builder
+		sep := pick(r, seps)
+		for k := 0; k < 1+r.Intn(5); k++ {
+			if k > 0 {
+				if r.Chance(70) {
+					b.WriteString(sep)
+				} else {
+					b.WriteString(pick(r, seps))
+				}
+			}
+			b.WriteString(pick(r, words))
+		}
+		if r.Chance(40) {
+			b.WriteString(sep)
+		}
+		add(mkLit(b.String()))
+	}
 	for _, p := range nastyPieces {
 		add(mkLit(p))
 		add(mkLit(p + p))
